@@ -10,12 +10,21 @@ ANSI_RE = re.compile(r"\x1B(?:[@-Z\\-_]|\[[0-?]*[ -/]*[@-~])")
 SGR_RE = re.compile(r"\x1B\[([\d;]*)m")
 
 
+# an escaped backslash is a unit: the "e"/"x1b" after it is ordinary text
+_TTY_ESCAPE_RE = re.compile(r"\\\\|\\x1b|\x1b")
+_TTY_UNESCAPE_RE = re.compile(r"\\\\|\\e")
+
+
 def tty_escape(s: str) -> str:
-    return s.replace('\x1b', '\\e').replace('\\x1b', '\\e')
+    return _TTY_ESCAPE_RE.sub(
+        lambda m: m.group() if m.group() == '\\\\' else '\\e', s,
+    )
 
 
 def tty_unescape(s: str) -> str:
-    return s.replace('\\e', '\x1b')
+    return _TTY_UNESCAPE_RE.sub(
+        lambda m: m.group() if m.group() == '\\\\' else '\x1b', s,
+    )
 
 
 def descape(text: str | bytes) -> str:
